@@ -58,8 +58,7 @@ func (it *Interp) newCtx(havoc bool) *Native {
 	p := it.p
 	ctxCounter++
 	d := &CtxData{id: ctxCounter, stores: map[string]*StoreData{}, havoc: havoc, values: map[string]Val{}}
-	tn := Var(p.freshName("blocktime"), SInt)
-	p.sources = append(p.sources, Source{Kind: "time", Tag: "ctx.blocktime", Terms: []*Term{tn}})
+	tn := it.freshTime("ctx.blocktime")
 	d.time = TimeV{tn}
 	h := Var(p.freshName("blockheight"), bvSort(64))
 	p.sources = append(p.sources, Source{Kind: "i64", Tag: "ctx.height", Terms: []*Term{h}})
